@@ -28,6 +28,12 @@
 #include <nano/splitter.h>
 #include <nano/tuner.h>
 #include <nano/wlearner.h>
+#include <nano/dataset/scaling.h>
+#include <nano/gboost/enums.h>
+#include <nano/solver/lstep.h>
+#include <nano/task.h>
+#include <nano/wlearner/criterion.h>
+#include <nano/wlearner/hinge.h>
 #include <functional>
 #include <limits>
 #include <set>
@@ -1269,6 +1275,48 @@ bool perturb(parameter_t& p)
     return false;
 }
 
+long g_enum_typed_checks = 0;
+// typed read-back of an enumeration parameter: if the parameter's domain is the name table of the enum type E, every value of
+// E assigned (typed and by name) must be read back by value<E>() as that very value -- names that are proper prefixes of other
+// names of the same enum (aic / aicc) are what a prefix-matching from_string gets wrong
+template <class E>
+bool enum_typed_roundtrip(parameter_t& p, const string& ctx)
+{
+    const auto* e = std::get_if<epar_t>(&p.storage());
+    if (e == nullptr) return false;
+    const auto options = enum_string<E>();
+    if (options.size() != e->m_domain.size()) return false;
+    for (size_t i = 0; i < options.size(); ++i)
+        if (string(options[i].second) != e->m_domain[i]) return false;
+    const auto original = p.value<E>();
+    for (const auto& [value, name] : options)
+    {
+        ++g_enum_typed_checks;
+        try
+        {
+            p = value;
+            if (p.value<E>() != value) fail("enum parameter assigned (typed) is read back as another value", ctx + " " + p.name() + " value=" + string(name));
+            p = string(name);
+            if (p.value<E>() != value) fail("enum parameter assigned by name is read back (typed) as another value", ctx + " " + p.name() + " name=" + string(name));
+            if (std::get_if<epar_t>(&p.storage())->m_value != string(name)) fail("enum parameter assigned by name stores another name", ctx + " " + p.name() + " name=" + string(name));
+        }
+        catch (const std::exception& ex)
+        {
+            fail(string("enum parameter: assigning / reading a value of its own domain throws: ") + ex.what(), ctx + " " + p.name() + " name=" + string(name));
+        }
+    }
+    p = original;
+    return true;
+}
+void enum_typed_all(parameter_t& p, const string& ctx)
+{
+    (void)(enum_typed_roundtrip<wlearner_criterion>(p, ctx) || enum_typed_roundtrip<scaling_type>(p, ctx) ||
+           enum_typed_roundtrip<interpolation_type>(p, ctx) || enum_typed_roundtrip<gboost_wscale>(p, ctx) ||
+           enum_typed_roundtrip<gboost_shrinkage>(p, ctx) || enum_typed_roundtrip<gboost_subsample>(p, ctx) ||
+           enum_typed_roundtrip<task_type>(p, ctx) || enum_typed_roundtrip<hinge_type>(p, ctx) ||
+           enum_typed_roundtrip<lsearch_type>(p, ctx));
+}
+
 long g_fact_objs = 0, g_fact_params = 0, g_fact_perturbed = 0;
 
 template <class tobject>
@@ -1346,6 +1394,11 @@ void factory(const char* fname, factory_t<tobject>& all, const tbehave& behave)
                 catch (std::exception&)
                 {
                     fail("the default value is rejected when assigned again", ctx + " " + p.name() + " " + st_of(p.storage()));
+                }
+                // typed read-back of enumeration parameters (on a copy)
+                {
+                    parameter_t q = p;
+                    enum_typed_all(q, ctx);
                 }
             }
             // behaviour before any modification
@@ -1431,9 +1484,57 @@ string behave_params(const tobject& o)
     return c ? cfg_state(*c) : string("-");
 }
 
+// the configuration of a line-search solver includes its two line-search components (ids AND their parameters)
+string behave_lsearch(const solver_t& o)
+{
+    if (o.type() != solver_type::line_search) return "";
+    return " | lsearch0=" + o.lsearch0().type_id() + ":" + cfg_state(o.lsearch0()) + " | lsearchk=" + o.lsearchk().type_id() + ":" + cfg_state(o.lsearchk());
+}
+
+long g_lsearch_clone_checks = 0;
+// a solver whose line-search components were installed as CONFIGURED objects (non-default parameters) and then cloned: the
+// clone must carry the same component ids and parameters and minimise identically (bit for bit), and stay independent
+void solver_lsearch_clones()
+{
+    const auto fproto = function_t::all().get("rosenbrock");
+    for (const auto& sid : solver_t::all().ids())
+    {
+        auto solver = solver_t::all().get(sid);
+        if (solver->type() != solver_type::line_search) continue;
+        for (const auto& l0 : lsearch0_t::all().ids())
+            for (const auto& lk : lsearchk_t::all().ids())
+            {
+                const string ctx = "solver " + sid + " lsearch0=" + l0 + " lsearchk=" + lk;
+                auto o0 = lsearch0_t::all().get(l0);
+                auto ok = lsearchk_t::all().get(lk);
+                bool changed = false;
+                for (const auto& p : o0->parameters()) { const string name = p.name(); changed = perturb(o0->parameter(name)) || changed; }
+                for (const auto& p : ok->parameters()) { const string name = p.name(); changed = perturb(ok->parameter(name)) || changed; }
+                solver->lsearch0(*o0);
+                solver->lsearchk(*ok);
+                const auto cl = solver->clone();
+                ++g_lsearch_clone_checks;
+                if (behave_params(*cl) + behave_lsearch(*cl) != behave_params(*solver) + behave_lsearch(*solver))
+                    fail("clone of a solver with configured line-search components is not configuration-equal", ctx + " :: " + behave_lsearch(*solver) + " vs " + behave_lsearch(*cl));
+                if (fproto && (sid == "gd" || sid == "lbfgs" || sid == "bfgs" || sid == "cgd-pr"))
+                {
+                    const auto f = fproto->make(3, 10);
+                    vector_t   x0(f->size());
+                    for (tensor_size_t i = 0; i < x0.size(); ++i) x0(i) = 0.5 - 0.25 * static_cast<double>(i);
+                    const auto a = solver->minimize(*f, x0, make_null_logger());
+                    const auto b = cl->minimize(*f, x0, make_null_logger());
+                    if (a.fx() != b.fx() || a.fcalls() != b.fcalls() || a.gcalls() != b.gcalls() || a.status() != b.status())
+                        fail("clone of a solver with configured line-search components minimises differently", ctx);
+                }
+                (void)changed;
+            }
+    }
+}
+
 void factories()
 {
-    factory("solver", solver_t::all(), [](const solver_t& o) { return behave_params(o); });
+    factory("solver", solver_t::all(), [](const solver_t& o) { return behave_params(o) + behave_lsearch(o); });
+    solver_lsearch_clones();
     factory("lsearch0", lsearch0_t::all(), [](const lsearch0_t& o) { return behave_params(o); });
     factory("lsearchk", lsearchk_t::all(), [](const lsearchk_t& o) { return behave_params(o); });
     factory("loss", loss_t::all(), [](const loss_t& o) { return behave_loss(o) + " " + behave_params(o); });
